@@ -482,6 +482,11 @@ class VerifyAttrs(object):
 
         dim = attrs["dimension"]
         if dim:
+            if not isinstance(dim, str):
+                # attrs: dimension: 3 in the YAML file is a number,
+                # +dimension(3) in the declaration is text.
+                dim = str(dim)
+                attrs["dimension"] = dim
             try:
                 declast.check_dimension(dim, metaattrs)
             except RuntimeError:
